@@ -7,6 +7,18 @@ VERIF = os.path.dirname(os.path.dirname(os.path.abspath(__file__)))
 ALL = [f"C{i:02d}" for i in range(1, 21)]
 
 CHECKS = {
+    "C01": dict(
+        category="exploration",
+        text="Hypothesis-generated (model, term table, offset, swap sequence) cases over every basis kind; each table is built "
+             "with all three algorithms and compared entry-wise with a dense reference assembled independently by the harness "
+             "(own re-grouping of the terms, Kronecker products of BasisSet.op_mat matrices); every adjacent swap (each swap "
+             "algorithm) is compared with the leg-permuted reference and with a freshly built MPO. Exploration is the right level: "
+             "the input space is unbounded and the oracle is exact, so each generated case is decided.",
+        design_ref="DESIGN.md §4 C01",
+        note="Trusted: numpy Kronecker/dense algebra, BasisSet.op_mat for the local matrix of a site symbol (C16 checks those). "
+             "Sizes <= 6 sites / <= 40 terms / dense dimension <= 2048.",
+        technique="property-based testing (Hypothesis) with dense reference-model oracle and differential/metamorphic swap relation",
+    ),
     "C19": dict(
         category="exploration",
         text="Complete enumeration of the finite space (10 tableaux x rows x 17 rooted trees of order <=5, row sums, "
